@@ -42,34 +42,34 @@ type loopInfo struct {
 }
 
 type Exec struct {
-	P        *Program
-	E        *Engine
-	fn       *ssa.Function
-	c        *Contract
-	obligs   []*Oblig
-	labels   map[ssa.Instruction]string
-	labelled map[*ssa.Function]bool
-	loops    map[*ssa.Function]map[*ssa.BasicBlock]*loopInfo
-	nPaths   int
-	maxPaths int
-	dry      []*dryRun
-	errs     []string
-	params   map[string]Val
-	paramFacts []*Term
-	inputs   []*Term // symbolic input variables (for models)
-	retCount int
+	P              *Program
+	E              *Engine
+	fn             *ssa.Function
+	c              *Contract
+	obligs         []*Oblig
+	labels         map[ssa.Instruction]string
+	labelled       map[*ssa.Function]bool
+	loops          map[*ssa.Function]map[*ssa.BasicBlock]*loopInfo
+	nPaths         int
+	maxPaths       int
+	dry            []*dryRun
+	errs           []string
+	params         map[string]Val
+	paramFacts     []*Term
+	inputs         []*Term // symbolic input variables (for models)
+	retCount       int
 	inlineDepthMax int
-	callsSeen map[string]bool // callee display names used through contracts
-	pristine *State
-	entryLets map[string]Val
-	inEntry   bool
-	assignRhs map[*ssa.Function]map[token.Pos]string
-	inHook   bool
-	clauseHit map[interface{}]bool
-	extraLets map[string]Val
-	recvOk   *Term
-	allocs   []*Object
-	trustedUsed map[string]bool
+	callsSeen      map[string]bool // callee display names used through contracts
+	pristine       *State
+	entryLets      map[string]Val
+	inEntry        bool
+	assignRhs      map[*ssa.Function]map[token.Pos]string
+	inHook         bool
+	clauseHit      map[interface{}]bool
+	extraLets      map[string]Val
+	recvOk         *Term
+	allocs         []*Object
+	trustedUsed    map[string]bool
 }
 
 type dryRun struct {
@@ -561,7 +561,7 @@ func (x *Exec) havoc(s *State, rec writeRec, tag string) {
 			if ncs.Len == nil {
 				ncs.Len = Int(0)
 			}
-			ncs.Cap = ocs.Cap   // the capacity of a channel never changes
+			ncs.Cap = ocs.Cap // the capacity of a channel never changes
 		}
 	}
 	s.heap[o.id] = nv
